@@ -51,6 +51,7 @@ def pools(ctx):
         ("d3big", pick(d3big, 8000)),
         ("inline", pick(list(docs.d_inline(4)), 30000)),
         ("edges", pick(list(dict.fromkeys(docs.link_edges() + docs.leaf_edges() + docs.families() + docs.inline_emph(6))), 4000)),
+        ("inline-edges", docs.inline_edges()),
         ("nesting", pick(list(dict.fromkeys(docs.container_pairs() + docs.corpus_marker_variants() + docs.multi_pairs())), 4000)),
     ]
 
@@ -196,7 +197,7 @@ def run(ctx):
     blocks.inlinerecog(ctx)    # raw HTML / autolink / entity / escape / code span recognisers = LeanMark outside stated input sets
     blocks.emphasis(ctx)       # flanking and rule-of-3 = spec sentences; rule_of_3_deviation
     blocks.gfm(ctx)            # faithful HTML generator: render_total / balanced / escapes, looseness vs the CommonMark definition
-    ctx.block("bqcountlib", "bqcount")          # count = recursive specification / CommonMark marker definition (count_eq_spec)
+    ctx.block("bqcountlib", "bqcount", __import__("blocks").SRC["bqcount"])          # count = recursive specification / CommonMark marker definition (count_eq_spec)
     if not ok:
         ctx.broken.append("lake build failed: the reference model cannot be run")
     acc, base = Acc(), vlib.InputBaseline("C03")
